@@ -4,6 +4,7 @@ import (
 	"net"
 	"os"
 	"strings"
+	"sync"
 
 	"github.com/tidwall/tile38/internal/collection"
 	"github.com/tidwall/tile38/internal/field"
@@ -17,6 +18,7 @@ import (
 
 // vhLock is the server lock: it records the locking pattern and what the log buffer held at unlock time.
 type vhLock struct {
+	gmu         sync.Mutex // native replays call the lock from several goroutines
 	s           *Server
 	log         string
 	excl        bool
@@ -31,11 +33,15 @@ func (l *vhLock) Lock() {
 	if l.onLock != nil {
 		l.onLock()
 	}
+	l.gmu.Lock()
 	l.log += "L"
 	l.excl = true
+	l.gmu.Unlock()
 }
 func (l *vhLock) LockLowPriority() { l.Lock() }
 func (l *vhLock) Unlock() {
+	l.gmu.Lock()
+	defer l.gmu.Unlock()
 	l.log += "U"
 	l.excl = false
 	l.aofAtUnlock = len(l.s.aofbuf)
@@ -43,8 +49,15 @@ func (l *vhLock) Unlock() {
 		l.snapAtUnlock = vhSnapshot(l.s)
 	}
 }
-func (l *vhLock) RLock()   { l.log += "R"; l.shared++ }
-func (l *vhLock) RUnlock() { l.log += "r"; l.shared-- }
+func (l *vhLock) RLock()   { l.gmu.Lock(); l.log += "R"; l.shared++; l.gmu.Unlock() }
+func (l *vhLock) RUnlock() { l.gmu.Lock(); l.log += "r"; l.shared--; l.gmu.Unlock() }
+func (l *vhLock) takeLog() string {
+	l.gmu.Lock()
+	defer l.gmu.Unlock()
+	s := l.log
+	l.log = ""
+	return s
+}
 
 // vhSnapshot renders everything a client can observe of the dataset: collections, objects (geometry or
 // string value, deadline, fields) and hooks/channels.
